@@ -67,15 +67,18 @@ func (t *Transaction) Transact(operations ...ovsdb.Operation) ([]*ovsdb.Operatio
 	}
 
 	// Ensure Named UUIDs are expanded in all operations
-	operations, err = ovsdb.ExpandNamedUUIDs(operations, &t.Model.Schema)
-	if err != nil {
-		r := ovsdb.ResultFromError(err)
-		results[0] = &r
-		return results, updates.NewDatabaseUpdate(update, nil)
-	}
+	// an operation that cannot be expanded fails when its turn comes, the
+	// operations before it have their results
+	operations, failedAt, failed := ovsdb.ExpandNamedUUIDsUpTo(operations, &t.Model.Schema)
 
 	var r ovsdb.OperationResult
 	for i, op := range operations {
+		if failed != nil && i == failedAt {
+			r = ovsdb.ResultFromError(failed)
+			result := r
+			results[i] = &result
+			break
+		}
 		var u *updates.ModelUpdates
 		switch op.Op {
 		case ovsdb.OperationInsert:
